@@ -149,8 +149,24 @@ pub fn gen_items(seed: u64, salt: &str, n: usize, start: usize) -> Vec<Item> {
                 // every other definition starts with a documentation comment (so the text handed to
                 // a front-end does not begin with the keyword) and documents its first member
                 idl.docs = vec!["# Definition for tests".to_string(), "# (generated)".to_string()];
-                if let Some(m) = idl.members.first_mut() {
-                    m.docs = vec!["# first member".to_string()];
+                // ... and documents its members with texts that mean something to Rust's lexer
+                const DOC_TEXTS: [&str; 8] = [
+                    "# first member",
+                    "# a path C:\\dir\\file and a pattern \\w+\\d",
+                    "# ends in a backslash \\",
+                    "# \"quoted\" 'single' \\\"escaped\\\"",
+                    "# {braces} {} {0} %s $x",
+                    "# */ /* // #[attr] #![inner] r#raw",
+                    "# \u{e9}\u{4e2d}\u{6587}\u{1F600} and a tab\there",
+                    "#",
+                ];
+                for (j, m) in idl.members.iter_mut().enumerate() {
+                    if j == 0 || (start + k + j) % 3 != 0 {
+                        m.docs = vec![DOC_TEXTS[if j == 0 && (start + k) % 4 == 1 { 0 } else { (start + k + j) % DOC_TEXTS.len() }].to_string()];
+                        if (start + k + j) % 5 == 0 {
+                            m.docs.push(DOC_TEXTS[(start + k + 2 * j + 1) % DOC_TEXTS.len()].to_string());
+                        }
+                    }
                 }
             }
             let text = print_idl(&idl);
